@@ -28,6 +28,7 @@ import (
 	"strings"
 	"sync"
 	"testing"
+	"time"
 
 	"github.com/postalsys/muti-metroo/internal/vmc"
 	"github.com/postalsys/muti-metroo/internal/vmc/sched"
@@ -217,6 +218,8 @@ func c25Sched(r *vmc.Result) {
 	r.Info["sched_preemption_bound"] = map[string]int{"single_round": boundFor(c25SchedScenario{}), "second_round": 2}
 	completed := 0
 	execs := 0
+	start := time.Now()
+	defer func() { r.SetMax("sched_half_wall_ms", time.Since(start).Milliseconds()) }()
 	for idx, sc := range c25SchedScenarios(r) {
 		if idx%r.Shards != r.Shard {
 			continue
